@@ -25,7 +25,7 @@ UU = "12345678-1234-5678-1234-567812345678"
 VALUES = {
     "s-plain": "abc", "s-empty": "", "s-squote": "it's", "s-dquote": 'say "hi"', "s-num": "7", "s-float": "1.5", "s-true": "true", "s-True": "True", "s-yes": "yes",
     "s-date": "2020-01-02", "s-datetime": "2020-01-02T03:04:05+00:00", "s-uuid": UU, "s-member-a": "a", "s-member-b": "b", "s-nonmember": "c", "s-wrongcase": "A",
-    "s-const": "k", "i-5": 5, "i-0": 0, "i-neg": -2, "i-1": 1, "i-2": 2, "f-1.5": 1.5, "f-5.0": 5.0, "b-true": True, "b-false": False,
+    "s-const": "k", "s-const2": "m", "s-const3": "z", "s-member-c": "c2", "s-member-d": "d2", "i-5": 5, "i-0": 0, "i-neg": -2, "i-1": 1, "i-2": 2, "f-1.5": 1.5, "f-5.0": 5.0, "b-true": True, "b-false": False,
     "list": [1], "obj": {"a": 1}, "s-notdate": "not a date", "s-x": "x",
     # integers a double cannot represent: JSON integers are exact
     "obj-bool-null": {"enabled": True, "label": None, "n": [False]}, "list-bool-null": [None, True, "x"], "obj-nested": {"a": {"b": [1, {"c": None}]}},
@@ -121,6 +121,23 @@ def table(kind):
     elif kind.startswith("nullable_str"):
         for k in ("s-plain", "s-empty", "s-None", "s-null", "s-num", "s-true"):
             put(k, V, VALUES[k])
+    elif kind == "union_consts3":          # COUNT: the 3.1 way of writing an enum; a default that is the 2nd / 3rd const
+        for k in ("s-const", "s-const2", "s-const3"):
+            put(k, V, VALUES[k])
+        for k in ("s-x", "s-plain", "i-5", "s-empty"):
+            put(k, I)
+    elif kind in ("union_enums2", "union_enumrefs2"):   # two enums side by side; a default that is a member of the second
+        for k in ("s-member-a", "s-member-b", "s-member-c", "s-member-d"):
+            put(k, V, VALUES[k])
+        for k in ("s-nonmember", "s-wrongcase", "i-1", "list"):
+            put(k, I)
+    elif kind == "union_consts_num":       # consts followed by a lenient member of another kind: the const's own value comes back
+        put("i-1", V, 1)
+        put("i-2", V, 2)
+        put("f-1.5", V, 1.5)
+        put("i-5", V, 5)
+        for k in ("s-plain", "list"):
+            put(k, I)
     elif kind.startswith("union_"):
         for k in ("s-plain", "s-num", "s-float", "s-true", "s-date", "s-empty", "s-2p53+1"):
             put(k, V, VALUES[k])                  # a string is a valid instance of the string member: the default is that string
@@ -139,6 +156,7 @@ KINDS = ["str", "int", "num", "bool", "date", "datetime", "uuid", "enum_str", "e
          "enum_str_null", "enum_int_null", "enum_str_oneofnull",
          # unions whose plain string member is declared BEFORE a typed member: a string default stays the string it is
          "union_str_int", "union_typelist_str_num", "union_str_bool", "union_str_date", "nullable_str_nullfirst", "nullable_str_nulllast", "nullable_str_30",
+         "union_consts3", "union_enums2", "union_enumrefs2", "union_consts_num",
          # nullable strings, null named first / last: the STRINGS "None" and "null" are strings
          "nullable_str_nullfirst", "nullable_str_nulllast", "nullable_str_30"]
 ENUM_VALUES = {"enum_str": ["a", "b"], "enum_ref": ["a", "b"], "enum_int": [1, -2]}
@@ -167,6 +185,16 @@ def _schema(kind, comps):
         return {"anyOf": [{"type": "string"}, {"type": "boolean"}]}
     if kind == "union_str_date":
         return {"oneOf": [{"type": "string"}, {"type": "string", "format": "date"}]}
+    if kind == "union_consts3":
+        return {"oneOf": [{"const": "k"}, {"const": "m"}, {"const": "z"}]}
+    if kind == "union_enums2":
+        return {"anyOf": [{"type": "string", "enum": ["a", "b"]}, {"type": "string", "enum": ["c2", "d2"]}]}
+    if kind == "union_enumrefs2":
+        comps.setdefault("EnumRef", {"type": "string", "enum": ["a", "b"]})
+        comps.setdefault("EnumRef2", {"type": "string", "enum": ["c2", "d2"]})
+        return {"anyOf": [{"$ref": "#/components/schemas/EnumRef"}, {"$ref": "#/components/schemas/EnumRef2"}]}
+    if kind == "union_consts_num":
+        return {"oneOf": [{"const": 1}, {"const": 2}, {"type": "number"}]}
     if kind == "enum_ref":
         comps.setdefault("EnumRef", {"type": "string", "enum": ["a", "b"]})
         return {"$ref": "#/components/schemas/EnumRef"}
@@ -241,7 +269,7 @@ def _doc(kind, value, route, pos, lit, req="opt"):
 
 
 PARAM_KINDS = {"str", "int", "num", "bool", "date", "datetime", "uuid", "enum_str", "enum_int", "enum_ref", "union", "any", "const",
-               "union_str_int", "union_typelist_str_num", "union_str_bool", "union_str_date",
+               "union_str_int", "union_typelist_str_num", "union_str_bool", "union_str_date", "union_consts3", "union_enums2", "union_enumrefs2", "union_consts_num",
                "enum_str_null", "enum_int_null", "enum_str_oneofnull"}
 
 
